@@ -173,6 +173,37 @@ func responseKeyOf(f *ast.Field) string {
 	return ""
 }
 
+// hasDuplicateFieldNames reports whether an object literal anywhere inside `value` names a field twice. Such a
+// literal stays in the document: UniqueInputFieldNames must see it (a synthetic variable would hide it, and the
+// request would be served with the last value).
+func hasDuplicateFieldNames(value ast.Value) bool {
+	switch v := value.(type) {
+	case *ast.ListValue:
+		for _, item := range v.Values {
+			if hasDuplicateFieldNames(item) {
+				return true
+			}
+		}
+	case *ast.ObjectValue:
+		seen := map[string]bool{}
+		for _, f := range v.Fields {
+			if f == nil {
+				continue
+			}
+			if f.Name != nil {
+				if seen[f.Name.Value] {
+					return true
+				}
+				seen[f.Name.Value] = true
+			}
+			if hasDuplicateFieldNames(f.Value) {
+				return true
+			}
+		}
+	}
+	return false
+}
+
 // normCtx threads state across the recursive walk: schema for type
 // lookups, synth counter, accumulated args + var defs.
 type normCtx struct {
@@ -283,6 +314,9 @@ func (c *normCtx) tryExtract(value ast.Value, expected Input) (ast.Value, bool) 
 		return value, false
 	}
 	if expected == nil {
+		return value, false
+	}
+	if hasDuplicateFieldNames(value) {
 		return value, false
 	}
 	// Coerce literal once at extract time. We pass nil variableValues
